@@ -1,5 +1,5 @@
 import TeaalVerif.Driver.C01
-import TeaalVerif.Props.C04Var
+import TeaalVerif.Props.C04Part
 open Lean
 namespace Driver
 open Nest HF
@@ -195,19 +195,6 @@ def checkLoop (exp : String × List (String × (Bool × Bool) × AffS)) (act : S
 
 /-! ### shape partitioning of the output rank with the input rank following (output-stationary form `[.., Q1, .., Q0, .., S ..]`) -/
 
-/-- `splitUniform(step, depth=d, post_halo=halo)` on points: the element at coordinate `w` of rank `d` lands in every partition
-    `p` (a multiple of `step`) whose window `[p, p + step + halo)` contains it -/
-def splitHaloAt (d step halo : Nat) (P : Pts) : Pts :=
-  P.flatMap fun (cs, v) =>
-    match cs[d]? with
-    | none => []
-    | some w =>
-      ((List.range (w / step + 1)).filterMap fun j =>
-        let p := j * step
-        if p ≤ w ∧ w < p + step + halo then some (cs.take d ++ [p, w] ++ cs.drop (d + 1), v) else none)
-
-def renameVar (q q' : String) (e : AffS) : AffS := ⟨e.terms.map fun t => (t.1, if t.2 == q then q' else t.2), e.const⟩
-
 structure PartSpec where
   q : String                       -- the partitioned index variable
   n : Nat                          -- partition size
@@ -219,43 +206,29 @@ def partOfJson (j : Json) : Except String PartSpec := do
     pure ((← HF.strOf a[0]!), (← natOf a[1]!))
   pure ⟨← HF.strOf (← fld j "q"), ← natOf (← fld j "n"), fs⟩
 
-/-- halo of an access `a*q + rho`: the largest value `rho` takes (coefficients of `rho` not negative) -/
-def haloOf (q : String) (e : AffS) (ext : String → Nat) : Nat :=
-  ((e.terms.filter fun t => t.2 != q).map fun t => t.1.toNat * (ext t.2 - 1)).sum
+/-- the configuration of `Props/C04Part` for a partition spec: follower index, step and halo per tensor name -/
+def partCfgOf (S0 : EinsumAS) (ps : PartSpec) : C04.PartCfg × (String → Nat) :=
+  let ext : String → Nat := fun v => ((S0.loop.zip S0.exts).lookup v).getD 1
+  let tensors := S0.terms.flatMap (·.tensors)
+  let fol : String → Option Nat := fun nm => (ps.followers.find? (·.1 == nm)).map (·.2)
+  let accOfT : String → AffS := fun nm =>
+    match tensors.find? (·.name == nm), fol nm with
+    | some x, some i => (x.idx.getD i default).e
+    | _, _ => default
+  let stepF : String → Nat := fun nm => ((accOfT nm).coef ps.q).toNat * ps.n
+  let haloF : String → Nat := fun nm => (((accOfT nm).rest ps.q).map fun t => t.1.toNat * (ext t.2 - 1)).sum
+  ({ q := ps.q, q0 := ps.q ++ "0", q1 := ps.q ++ "1", n := ps.n, fol := fol, stepF := stepF, haloF := haloF }, ext)
 
-/-- the partitioned form: `q` becomes `(q1, q0)`; a follower access `a*q + rho` on rank `R` becomes `(a*q1, a*q0 + rho)` on
-    `(R1, R0)` of the halo-split tensor; a virtual tile tensor `T'[q0 - q1]` (1 on `0..n-1`) stands for the range loop
+/-- the partitioned form (`C04.convTerm` / `C04.convEnv`): `q` becomes `(q1, q0)`; a follower access `a*q + rho` on rank `R` becomes
+    `(a*q1, a*q0 + rho)` on `(R1, R0)` of the halo-split tensor; the tile tensor `T'[q0 - q1]` stands for the range loop
     `iterRangeShapeRef(q1, min(q1 + n, Q))`.  Returns the Einsum, its inputs and, per follower, (tensor, depth, step, halo). -/
 def partitionedForm (S0 : EinsumAS) (env : String → Pts) (ps : PartSpec) (loop : List String) (exts : List Nat) :
     EinsumAS × (String → Pts) × List (String × Nat × Nat × Nat) :=
-  let q1 := ps.q ++ "1"
-  let q0 := ps.q ++ "0"
-  let extOf : String → Nat := fun v => ((S0.loop.zip S0.exts).lookup v).getD 1
-  let conv (x : TensorAS) : TensorAS × Option (Nat × Nat × Nat) :=
-    let hit := (List.range x.idx.length).find? fun i => ps.followers.contains (x.name, i)
-    match hit with
-    | some i =>
-      let a := (x.idx.getD i default).e
-      let aq := a.coef ps.q
-      let step := aq.toNat * ps.n
-      let halo := haloOf ps.q a extOf
-      let up : AccA := { e := ⟨[(aq, q1)], 0⟩, proj := true, ivl := false }
-      let lo : AccA := { e := renameVar ps.q q0 a, proj := C04.isProjE (renameVar ps.q q0 a) }
-      let rk := x.ranks.getD i "?"
-      let idx' := (x.idx.take i).map (fun c => ({ e := renameVar ps.q q0 c.e, proj := c.proj } : AccA)) ++ [up, lo] ++
-        (x.idx.drop (i + 1)).map (fun c => ({ e := renameVar ps.q q0 c.e, proj := c.proj } : AccA))
-      ({ name := x.name, ranks := x.ranks.take i ++ [rk ++ "1", rk ++ "0"] ++ x.ranks.drop (i + 1), idx := idx' }, some (i, step, halo))
-    | none => ({ x with idx := x.idx.map fun c => { e := renameVar ps.q q0 c.e, proj := c.proj } }, none)
-  let tile : TensorAS := { name := "tile__", ranks := ["T"], idx := [{ e := ⟨[(1, q0), (-1, q1)], 0⟩, proj := true }] }
-  let terms := S0.terms.map fun t => { t with tensors := t.tensors.map (fun x => (conv x).1) ++ [tile] }
-  let splits := S0.terms.flatMap fun t => t.tensors.filterMap fun x => (conv x).2.map fun (i, st, h) => (x.name, i, st, h)
-  let env' : String → Pts := fun nm =>
-    if nm == "tile__" then (List.range ps.n).map fun d => ([d], (1 : Int))
-    else match splits.find? (·.1 == nm) with
-      | some (_, i, st, h) => splitHaloAt i st h (env nm)
-      | none => env nm
-  ({ loop := loop, exts := exts, outName := S0.outName, outVars := S0.outVars.map fun v => if v == ps.q then q0 else v, terms := terms },
-   env', splits)
+  let (c, _) := partCfgOf S0 ps
+  let splits := ps.followers.map fun (nm, i) => (nm, i, c.stepF nm, c.haloF nm)
+  ({ loop := loop, exts := exts, outName := S0.outName, outVars := S0.outVars.map fun v => if v == ps.q then c.q0 else v,
+     terms := S0.terms.map (C04.convTerm c) },
+   C04.convEnv c env, splits)
 
 /-- numeric value of an emitted bound / step expression (`int(x)`, `min(a, b)`, `+ - *`, names from the environment) -/
 partial def evalNum (env : String → Option Int) : Expr → Option Int
@@ -331,7 +304,18 @@ def nestAff (j : Json) : Except String Json := do
       decide ((S.loop.zip S.exts).Perm (R ++ [(o.w, We)])) &&
         decide (C04.VarHyps o.s o.w o.c0 o.rho o.Se We (concord S.loop S.outVars) S0.terms env)
     | none => true
-  let hyps := decide (C04.HypsA S env) && varOK
+  let partOK := match part with
+    | some ps =>
+      let (c, ext) := partCfgOf S0 ps
+      let Qx := ((S.loop.zip S.exts).lookup c.q0).getD 0
+      let E1 := ((S.loop.zip S.exts).lookup c.q1).getD 0
+      let R := (S.loop.zip S.exts).filter fun p => p.1 != c.q0 && p.1 != c.q1
+      let out0 := (concord S.loop S.outVars).map fun v => if v == c.q0 then c.q else v
+      decide ((S.loop.zip S.exts).Perm (R ++ [(c.q0, Qx)] ++ [(c.q1, E1)])) &&
+        decide (concord S.loop S.outVars = out0.map fun v => if v = c.q then c.q0 else v) &&
+        decide (C04.PartHyps c ext R Qx E1 out0 S0.terms)
+    | none => true
+  let hyps := decide (C04.HypsA S env) && varOK && partOK
   -- the partitioned output takes part in the loop over the upper level as well (its upper coordinate is merged away afterwards)
   let exp := (expectedUses S).map fun (v, es) =>
     match part with
